@@ -52,10 +52,12 @@ func (nopLogger) Printf(string, ...any) {}
 // ---- load canary: how late does a sleeping goroutine of this very process wake up? ----
 
 type canary struct {
-	mu   sync.Mutex
-	lags []lagSample
-	cur  [nCanaries]atomic.Int64 // start (UnixNano) of the tick each canary is in right now
-	stop chan struct{}
+	mu      sync.Mutex
+	lags    []lagSample
+	cur     []atomic.Int64 // start (UnixNano) of the tick each canary is in right now
+	stop    chan struct{}
+	tickD   time.Duration
+	minKeep time.Duration // only wake-up delays of at least this much are recorded (0: all)
 }
 
 type lagSample struct {
@@ -64,11 +66,17 @@ type lagSample struct {
 }
 
 func startCanary() *canary {
-	c := &canary{stop: make(chan struct{})}
+	c := &canary{stop: make(chan struct{}), tickD: tick, cur: make([]atomic.Int64, nCanaries)}
 	for k := 0; k < nCanaries; k++ {
 		go c.run(k)
 	}
 	return c
+}
+
+// newControls prepares k per-scenario control goroutines (started by the caller with go c.run(i),
+// interleaved with the creation of the scenario's callers): same thing as a caller minus fasthttp.
+func newControls(k int, tickD time.Duration) *canary {
+	return &canary{stop: make(chan struct{}), tickD: tickD, minKeep: 10 * time.Millisecond, cur: make([]atomic.Int64, k)}
 }
 
 const tick = 5 * time.Millisecond
@@ -82,12 +90,16 @@ func (c *canary) run(k int) {
 			c.cur[k].Store(t0.UnixNano())
 			select {
 			case <-c.stop:
+				c.cur[k].Store(0)
 				return
-			case <-time.After(tick):
+			case <-time.After(c.tickD):
 			}
 			now := time.Now()
+			if c.minKeep > 0 && now.Sub(t0)-c.tickD < c.minKeep {
+				continue
+			}
 			c.mu.Lock()
-			c.lags = append(c.lags, lagSample{now, now.Sub(t0) - tick})
+			c.lags = append(c.lags, lagSample{now, now.Sub(t0) - c.tickD})
 			if len(c.lags) > 1<<16 {
 				c.lags = append([]lagSample(nil), c.lags[len(c.lags)/2:]...)
 			}
@@ -121,7 +133,7 @@ func (c *canary) maxLag(from, to time.Time) time.Duration {
 	now := time.Now()
 	for k := range c.cur {
 		if t0 := c.cur[k].Load(); t0 != 0 && t0 <= to.UnixNano() {
-			if lag := now.Sub(time.Unix(0, t0)) - tick; lag > m {
+			if lag := now.Sub(time.Unix(0, t0)) - c.tickD; lag > m {
 				m = lag
 			}
 		}
@@ -279,6 +291,7 @@ type call struct {
 // slot is the call a caller is blocked in right now.
 type slot struct {
 	mu       sync.Mutex
+	goid     int64
 	id       string
 	deadline time.Time
 	flagged  bool
@@ -326,6 +339,14 @@ type lateCall struct {
 	Deadline time.Time
 	Caller   int
 	Blocked  bool // still blocked minStall after its deadline, while the server kept stalling
+	// stack evidence (see stackjudge_test.go)
+	StackAtSlack string // the caller's goroutine at deadline + slack
+	StateAtSlack string
+	FrameAtSlack string
+	OutsideTimer bool   // ... blocked inside fasthttp on something other than its timer select
+	StackAt3s    string // the same goroutine minStall after the deadline, if still inside the call
+	StateAt3s    string
+	FrameAt3s    string
 }
 
 type result struct {
@@ -336,7 +357,8 @@ type result struct {
 	drained    bool
 	doStuck    bool
 	idleCloses int
-	quiet      int // quiet periods that took place between waves
+	quiet      int     // quiet periods that took place between waves
+	ctl        *canary // this scenario's control goroutines
 }
 
 func runScenario(sc *scenario, r *mon.Run, cn *canary) *result {
@@ -375,7 +397,22 @@ func runScenario(sc *scenario, r *mon.Run, cn *canary) *result {
 			}
 		}()
 	}
+	nctl := 8
+	if sc.callers < nctl {
+		nctl = sc.callers
+	}
+	ctlTick := 5 * time.Millisecond
+	if sc.micro {
+		ctlTick = 200 * time.Microsecond
+	}
+	res.ctl = newControls(nctl, ctlTick)
+	defer close(res.ctl.stop)
+	started := 0
 	for g := 0; g < sc.callers; g++ {
+		if started < nctl && g*nctl/sc.callers >= started {
+			go res.ctl.run(started) // interleaved with the callers' creation
+			started++
+		}
 		plainDo := g < sc.doCallers
 		if plainDo {
 			unjudged.Add(1)
@@ -389,6 +426,9 @@ func runScenario(sc *scenario, r *mon.Run, cn *canary) *result {
 				defer judged.Done()
 			}
 			rnd := r.Rand(fmt.Sprintf("caller-%d", sc.idx), g)
+			slots[g].mu.Lock()
+			slots[g].goid = goid()
+			slots[g].mu.Unlock()
 			for k := 0; k < sc.perCaller; k++ {
 				if sc.waves > 0 {
 					<-waveGate[k]
@@ -508,14 +548,15 @@ watch:
 					lc := &lateCall{ID: s.id, Deadline: s.deadline, Caller: g}
 					lateBySlot[g] = lc
 					res.late = append(res.late, lc)
+					lc.StackAtSlack = stackOf(dumpAfter(now), s.goid)
+					lc.StateAtSlack, lc.FrameAtSlack, lc.OutsideTimer = stackVerdict(lc.StackAtSlack)
 				}
 				pendingLate++
 				if now.Sub(s.deadline) > minStall {
 					if lc := lateBySlot[g]; lc != nil && lc.ID == s.id && !lc.Blocked {
 						lc.Blocked = true
-						if res.lateStacks == "" && stackDumps.Add(1) <= 5 {
-							res.lateStacks = mon.Stacks() // (stops the world: only for blocked calls, a few per run)
-						}
+						lc.StackAt3s = stackOf(dumpAfter(now), s.goid)
+						lc.StateAt3s, lc.FrameAt3s, _ = stackVerdict(lc.StackAt3s)
 					}
 				} else {
 					allHeldLongEnough = false
@@ -590,6 +631,7 @@ func TestC38(t *testing.T) {
 		"plus micro-timeout scenarios: 24-64 callers x 40-120 calls with timeouts log-uniform in 0.2-51 us (10% with the deadline all but over before the call) on MaxConns 1 (20%: 2) against a mute server (stall / stall+close / 20% answers), under allocation pressure and sleeps at pc.do.beforeQueue, so that deadlines expire inside the call's own set-up (entry check, channel acquisition, work/timer acquisition); " +
 		"distinct = feature vector (mode, MaxConns, MaxPendingRequests, caller bucket, set of outcomes seen, plain-Do callers present); non-trivial = at least one call of the scenario timed out, overflowed or saw a connection error")
 	r.Assume("slack 1 s; stalls are released only after every judged call has returned or was recorded blocked at deadline + 1 s, and then not before the blocked call is 3 s past its deadline")
+	r.Assume("a late call is a violation only with stack evidence: at deadline + slack its goroutine is blocked inside fasthttp on something other than DoDeadline's own timer select (channel send/receive without timer case, mutex, ...), or it is still parked inside the call 3 s after the deadline while every canary and every control goroutine of its scenario (started interleaved with its callers, doing the same minus fasthttp: arm a timer, wake, record the delay) woke up within 100 ms; a goroutine that is runnable, inside the runtime or in the timer select is reported inconclusive (skipped_late_under_load)")
 	r.Assume("overload guard: 4 canary goroutines of this process sleep 5 ms in a loop and record how late they wake up. A call that returned by itself later than deadline + 1 s is judged only if no canary woke up more than 100 ms late while the call ran; a call still blocked 3 s past its deadline (freed only by the end of the stall) is judged unless a canary was more than 1 s late. Unjudged late calls are counted (skipped_late_under_load) and reported inconclusive")
 	r.Assume("slot-race rounds additionally run, next to the k callers, k control goroutines started by the same goroutine at the same moment that only wait on a fresh timer of the same duration: their worst wake-up delay counts like a canary's")
 	r.Assume("'connection error' = io.EOF / io.ErrUnexpectedEOF / closed pipe / any net.Error / ErrBrokenChunk / ErrConnectionClosed / the pipeline's 'connection has been stopped' error")
@@ -635,39 +677,52 @@ func TestC38(t *testing.T) {
 		outcomes := map[string]int{}
 		// 1. lateness
 		reported := map[string]bool{}
-		report := func(id string, started, deadline, returned time.Time, blocked bool, how string) {
-			if reported[id] {
-				return
+		// worst wake-up delay of the process-wide canaries and of this scenario's own control goroutines in a window
+		envLag := func(from, to time.Time) time.Duration {
+			lag := cn.maxLag(from, to)
+			if l := res.ctl.maxLag(from, to); l > lag {
+				lag = l
 			}
-			reported[id] = true
-			end := returned
-			if end.IsZero() {
-				end = time.Now()
-			}
-			lag := cn.maxLag(started, end)
-			limit := loadLimit
-			if blocked {
-				limit = frozenLimit
-			}
-			if lag > limit {
-				r.Event("skipped_late_under_load", 1)
-				r.Inconclusive(fmt.Sprintf("%s: call %s %s, but a canary goroutine of this process woke up %v late in that window (overload)", desc, id, how, lag))
-				return
-			}
-			r.Violation(i, "late-return", fmt.Sprintf("%s: call %s %s (slack %v; worst canary wake-up delay in that window %v)", desc, id, how, slack, lag),
-				map[string]any{"scenario": desc, "id": id, "deadline": deadline, "returned": returned, "blocked_until_stall_released": blocked, "call": byID[id], "stacks_when_blocked_3s_past_deadline": res.lateStacks})
+			return lag
+		}
+		skip := func(id, how, why string) {
+			r.Event("skipped_late_under_load", 1)
+			r.Inconclusive(fmt.Sprintf("%s: call %s %s, but %s: not judged", desc, id, how, why))
 		}
 		for _, lc := range res.late {
-			c := byID[lc.ID]
-			started := lc.Deadline.Add(-100 * time.Millisecond)
-			switch {
-			case c == nil:
-				report(lc.ID, started, lc.Deadline, time.Time{}, true, "was still blocked at deadline + slack and never returned, even after the server released the stall and closed its connections")
-			case lc.Blocked:
-				report(lc.ID, started, lc.Deadline, c.Returned, true, fmt.Sprintf("was still blocked %v after its deadline while the server stalled; it returned %v after its deadline, once the stall was released, with %s %q", minStall, c.LateBy.Round(time.Millisecond), c.Class, c.Err))
-			default:
-				report(lc.ID, started, lc.Deadline, c.Returned, false, fmt.Sprintf("was still blocked at deadline + slack; it returned by itself %v after its deadline with %s %q", c.LateBy.Round(time.Millisecond), c.Class, c.Err))
+			if reported[lc.ID] {
+				continue
 			}
+			reported[lc.ID] = true
+			c := byID[lc.ID]
+			end := time.Now()
+			how := "was still blocked at deadline + slack and never returned, even after the server released the stall and closed its connections"
+			if c != nil {
+				end = c.Returned
+				how = fmt.Sprintf("was still blocked at deadline + slack; it returned by itself %v after its deadline with %s %q", c.LateBy.Round(time.Millisecond), c.Class, c.Err)
+				if lc.Blocked {
+					how = fmt.Sprintf("was still blocked %v after its deadline while the server stalled; it returned %v after its deadline, once the stall was released, with %s %q", minStall, c.LateBy.Round(time.Millisecond), c.Class, c.Err)
+				}
+			}
+			lag := envLag(lc.Deadline.Add(-100*time.Millisecond), end)
+			evidence := fmt.Sprintf("goroutine at deadline + slack: [%s] in %s", lc.StateAtSlack, lc.FrameAtSlack)
+			switch {
+			case lc.OutsideTimer && lag <= frozenLimit:
+				// blocked inside fasthttp on something that is not its own timer select
+				how += "; " + evidence + " (blocked on something other than its timer select)"
+			case (lc.Blocked || c == nil) && lc.FrameAt3s != "" && lc.StateAt3s != "running" && lc.StateAt3s != "runnable" && lag <= loadLimit:
+				// still parked inside the call 3 s after the deadline although every canary and every control goroutine of
+				// this scenario woke up on time all along: its timer cannot have fired
+				how += fmt.Sprintf("; %s; %v after the deadline: [%s] in %s, while no canary / control goroutine was ever more than %v late", evidence, minStall, lc.StateAt3s, lc.FrameAt3s, lag)
+			case lc.OutsideTimer:
+				skip(lc.ID, how, fmt.Sprintf("a canary / control goroutine woke up %v late in that window (overload)", lag))
+				continue
+			default:
+				skip(lc.ID, how, fmt.Sprintf("its goroutine was [%s] in %q at deadline + slack, i.e. runnable, inside the runtime or waiting in its own timer select (worst canary / control delay %v): starved, not shown to be blocked", lc.StateAtSlack, lc.FrameAtSlack, lag))
+				continue
+			}
+			r.Violation(i, "late-return", fmt.Sprintf("%s: call %s %s (slack %v; worst canary / control wake-up delay in that window %v)", desc, lc.ID, how, slack, lag),
+				map[string]any{"scenario": desc, "id": lc.ID, "deadline": lc.Deadline, "call": c, "late": lc})
 		}
 		var worst time.Duration
 		njudged := 0
@@ -680,8 +735,11 @@ func TestC38(t *testing.T) {
 			if c.LateBy > worst {
 				worst = c.LateBy
 			}
-			if c.LateBy > slack {
-				report(c.ID, c.Deadline.Add(-c.Timeout), c.Deadline, c.Returned, false, fmt.Sprintf("returned %v after its deadline with %s %q", c.LateBy.Round(time.Millisecond), c.Class, c.Err))
+			if c.LateBy > slack && !reported[c.ID] {
+				// came back between two looks of the watcher: there is no stack of it at deadline + slack
+				reported[c.ID] = true
+				r.Event("late_without_stack_evidence", 1)
+				skip(c.ID, fmt.Sprintf("returned %v after its deadline with %s %q", c.LateBy.Round(time.Millisecond), c.Class, c.Err), "it was back before its stack could be taken")
 			}
 		}
 		r.Event("worst_overrun_ms_sum", int(worst/time.Millisecond))
@@ -817,28 +875,31 @@ func TestC38(t *testing.T) {
 			for _, id := range sr.blocked {
 				blocked[id] = true
 			}
+			judgeBlocked := func(id, how string) {
+				if !sr.outside[id] {
+					r.Event("skipped_late_under_load", 1)
+					r.Inconclusive(fmt.Sprintf("%s: call %s %s, but at deadline + slack its goroutine was %s, i.e. not shown to be blocked on anything but its own timer: not judged", desc, id, how, sr.evidence[id]))
+					return
+				}
+				if guard(frozenLimit, "call "+id+" "+how) {
+					r.Violation(i, "late-return", fmt.Sprintf("%s: call %s %s; goroutine at deadline + slack: %s (blocked on something other than its timer select)", desc, id, how, sr.evidence[id]),
+						map[string]any{"round": desc, "id": id, "evidence": sr.evidence[id]})
+				}
+			}
 			for _, id := range sr.never {
 				blocked[id] = true
-				if guard(frozenLimit, "call "+id+" never returned") {
-					r.Violation(i, "late-return", fmt.Sprintf("%s: call %s was still inside the call %v after its deadline and did not return within 10 s after the dial had been released", desc, id, minStall),
-						map[string]any{"round": desc, "id": id, "stacks_when_blocked_3s_past_deadline": sr.stacks})
-				}
+				judgeBlocked(id, fmt.Sprintf("was still inside the call %v after its deadline and did not return within 10 s after the dial had been released", minStall))
 			}
 			for _, c := range sr.returned {
 				ncalls++
 				switch {
 				case blocked[c.ID]:
 					late++
-					if guard(frozenLimit, "call "+c.ID+" was blocked") {
-						r.Violation(i, "late-return", fmt.Sprintf("%s: call %s was still inside the call %v after its deadline while the dial was hanging; it returned %v after its deadline, once the dial was released, with %s %q", desc, c.ID, minStall, c.LateBy.Round(time.Millisecond), c.Class, c.Err),
-							map[string]any{"round": desc, "call": c, "blocked_until_hang_released": true, "stacks_when_blocked_3s_past_deadline": sr.stacks})
-					}
+					judgeBlocked(c.ID, fmt.Sprintf("was still inside the call %v after its deadline while the dial was hanging; it returned %v after its deadline, once the dial was released, with %s %q", minStall, c.LateBy.Round(time.Millisecond), c.Class, c.Err))
 				case c.LateBy > slack:
 					late++
-					if guard(loadLimit, "call "+c.ID+" returned late") {
-						r.Violation(i, "late-return", fmt.Sprintf("%s: call %s returned by itself %v after its deadline with %s %q", desc, c.ID, c.LateBy.Round(time.Millisecond), c.Class, c.Err),
-							map[string]any{"round": desc, "call": c})
-					}
+					r.Event("skipped_late_under_load", 1)
+					r.Inconclusive(fmt.Sprintf("%s: call %s returned by itself %v after its deadline with %s %q (goroutine at deadline + slack: %s): late by its own timer, not shown to be blocked: not judged", desc, c.ID, c.LateBy.Round(time.Millisecond), c.Class, c.Err, sr.evidence[c.ID]))
 				}
 				switch c.Class {
 				case "wrong-response", "unexpected-error", "panic":
